@@ -34,7 +34,7 @@ var rR16r = RuleRef{Name: "R16r", Doc: "raft ready loop (raftexample serveChanne
 		c.Undecided("R16r", "select on Node.Ready() in serveChannels")
 		return
 	}
-	of := c.orderFlow(fn, func(in ssa.Instruction) bool { return in == ssa.Instruction(sel) }, true)
+	of := c.orderFlow(fn, func(in ssa.Instruction) bool { return in == ssa.Instruction(sel) }, true, "C|Save", "C|saveSnap", "C|Append", "C|Send", "C|publishEntries", "C|maybeTriggerSnapshot", "C|Advance", "C|ApplySnapshot")
 	type need struct {
 		at   string
 		all  []string
@@ -113,7 +113,7 @@ var rR16r = RuleRef{Name: "R16r", Doc: "raft ready loop (raftexample serveChanne
 		u, ok := in.(*ssa.UnOp)
 		return ok && u.Op == token.ARROW
 	}
-	af := c.orderFlow(ap, isRecv, true)
+	af := c.orderFlow(ap, isRecv, true, "C|*")
 	isDispatch := func(in ssa.Instruction) bool {
 		call, ok := in.(*ssa.Call)
 		if !ok {
